@@ -37,6 +37,24 @@ def sorted_sweep(sw):
     return s2
 
 
+def sow_shuffle_kw(op):
+    """the `shuffle` keyword of a sow_combos call: a value, left out (the default), or None (keep the crop's own)"""
+    if op.get('shuffle_none'): return {'shuffle': None}
+    if op.get('shuffle_omit') and not op.get('shuffle'): return {}
+    return {'shuffle': (op.get('shuffle') or False)}
+
+
+def vary_sow_call(rng, sow):
+    """vary how a sow_combos op spells its shuffle argument (no-op for sow_cases ops)"""
+    if sow.get('cases'): return sow
+    r = rng.random()
+    if r < 0.2:
+        sow.pop('shuffle', None); sow['shuffle_none'] = True
+    elif r < 0.45 and not sow.get('shuffle'):
+        sow.pop('shuffle', None); sow['shuffle_omit'] = True
+    return sow
+
+
 def run_history(h, ctx, farmer=None):
     """execute the ops of history `h` on the real API; returns list of {'o':..., 'ls':...}"""
     import xyzpy as xyz
@@ -78,8 +96,7 @@ def run_history(h, ctx, farmer=None):
                             crop.sow_cases(fa, sweeps.py_cases(sw, op.get('spelling', 'tuple')), verbosity=0, **kw)
                         else:
                             crop.sow_combos(sweeps.py_combos(sw, 'dict'), cases=sweeps.py_cases(sw, 'dict'),
-                                            constants=sw['consts'] or None, shuffle=(op.get('shuffle') or False),
-                                            verbosity=0, **kw)
+                                            constants=sw['consts'] or None, verbosity=0, **kw, **sow_shuffle_kw(op))
                     elif k in ('grow', 'growmissing'):
                         if op.get('fail'):
                             with open(failfile, 'w') as fh:
